@@ -1,8 +1,13 @@
 #!/bin/bash
-# Offline build of the harness (all check binaries) against /repo's working tree.
+# Offline build of the harness: every check registered in MANIFEST.json, against /repo's working tree.
 cd "$(dirname "$(readlink -f "$0")")" || exit 1
 unset GOFLAGS GOTOOLCHAIN GOSUMDB
 export GOPROXY=off GOWORK="$PWD/go.work"
 mkdir -p bin evidence replay
-go build -tags verif ./harness/... || exit 1
-echo setup ok
+rc=0
+for id in $(python3 -c "import json;print(' '.join(c['property_id'].lower() for c in json.load(open('MANIFEST.json'))['checks']))"); do
+  go build -tags verif -o "bin/$id" "./harness/checks/$id" || rc=1
+  if [ -f "harness/checks/$id/RACE" ]; then go build -race -tags verif -o "bin/$id.race" "./harness/checks/$id" || rc=1; fi
+done
+[ $rc = 0 ] && echo setup ok
+exit $rc
